@@ -149,6 +149,11 @@ func runOne(ctx context.Context, spec solverSpec, query string, timeoutS int) (s
 	case "sat", "unsat":
 		return first, s
 	}
+	// out of time (the solver's own limit, or ours) is not the same answer as
+	// "unknown": more time can help
+	if first == "timeout" || strings.Contains(s, "interrupted by timeout") || strings.Contains(s, "timeout") || ctx.Err() != nil || strings.TrimSpace(s) == "" {
+		return "timeout", s
+	}
 	return "unknown", s
 }
 
@@ -186,7 +191,7 @@ func SolveVariants(queries []string, timeoutS int, all bool) SolverResult {
 	res := SolverResult{Status: "unknown", All: map[string]string{}}
 	for a := range ch {
 		res.All[a.backend] = a.status
-		if a.status == "unknown" {
+		if a.status == "unknown" || a.status == "timeout" {
 			if res.Raw == "" {
 				res.Raw = a.backend + ": " + truncate(a.raw, 400)
 			}
